@@ -1,4 +1,5 @@
 import Percival.Proofs.AfMonEndA
+import Percival.Proofs.HeapCreateAlloc
 /-!
 # C14, `af` protocol: the accounting piece `AcctRel` is kept by every operation but `events_run` (part B)
 
@@ -152,6 +153,45 @@ theorem step_hFree (s : S) (ha : AcctRel s) : AcctRel (stepOp s .hFree).1 := by
       have := heapFree_live hp s.m
       simp only [hh, heapBlocks] at this ⊢; omega)
 
+/-- `ptrheap_create`: the structure, the list structure and — for a non-empty list — its buffer; nothing if it fails -/
+theorem heapCreate_live (key : Nat → Int) (ptrs : List Nat) (m : Mem) :
+    match HeapAlloc.create key ptrs m with
+    | (some hp, m') => m'.live - m.live = 2 + bb hp.alloc
+    | (none, m') => m'.live = m.live := by
+  have hs := Percival.Proofs.HeapCreateAlloc.create_spec key ptrs m
+  rcases hr : HeapAlloc.create key ptrs m with ⟨o, m'⟩
+  rw [hr] at hs
+  cases o with
+  | none => exact hs.1
+  | some hp =>
+    dsimp only at hs ⊢
+    rw [hs.2.2.2.2]
+    simp only [bb]
+    split <;> simp <;> omega
+
+theorem step_hCreate (s : S) (els : List (Nat × Int)) (ha : AcctRel s) : AcctRel (stepOp s (.hCreate els)).1 := by
+  simp only [stepOp]
+  split
+  · exact ha
+  · have h0 : (initMem s).live = s.m.live - heapBlocks s.h := by
+      unfold initMem
+      cases hh : s.h with
+      | none => simp [heapBlocks]
+      | some hp => dsimp only; rw [heapFree_live]
+    have h1 := heapCreate_live (Percival.Spec.AfMon.keyFn (els ++ s.keys)) (els.map (·.1)) (initMem s)
+    generalize initMem s = m0 at h0 h1 ⊢
+    rcases hr : HeapAlloc.create (Percival.Spec.AfMon.keyFn (els ++ s.keys)) (els.map (·.1)) m0 with ⟨o, m'⟩
+    rw [hr] at h1 ⊢
+    cases o with
+    | none =>
+      dsimp only at h1 ⊢
+      have e1 : heapBlocks none = 0 := rfl
+      exact acctRel_heap ha (by omega)
+    | some hp =>
+      dsimp only at h1 ⊢
+      have e1 : heapBlocks (some hp) = 2 + bb hp.alloc := rfl
+      exact acctRel_heap ha (by omega)
+
 /-! ### registrations and cancellations -/
 
 theorem immReg_heads_length (e : Ev) (id prio : Nat) (m : Mem) :
@@ -303,6 +343,7 @@ theorem acctRel_step_norun (s : S) (op : Op) (ha : AcctRel s) (hs : Side s) (hok
   | hMin => exact step_hMin s ha
   | hDelmin => exact step_hDelmin s ha
   | hFree => exact step_hFree s ha
+  | hCreate els => exact step_hCreate s els ha
   | regImm i prio => exact step_regImm s i prio hok ha
   | cancelImm i => exact step_cancelImm s i ha hs
   | regTm i us => exact step_regTm s i us ha
